@@ -800,7 +800,7 @@ class Interp:
             kind, ty = rv[1], rv[3]
             if kind in ("IntToInt",):
                 if isinstance(v, Adt):  # enum to int
-                    v = v.vi
+                    v = v.vi - 1 if v.path.endswith("cmp::Ordering") else v.vi
                 return wrap(v, ty)
             if kind == "IntToFloat":
                 fv = float(v)
@@ -872,6 +872,10 @@ class Interp:
         if k == "disc":
             v = self.read(fr, rv[1])
             if isinstance(v, Adt):
+                if v.path.endswith("cmp::Ordering"):
+                    # the one std enum the crate matches on whose discriminants (-1, 0, 1) differ
+                    # from its variant indices (0, 1, 2)
+                    return v.vi - 1
                 return v.vi
             raise Unsupported("discriminant of %r" % (v,))
         if k == "rep":
@@ -899,9 +903,9 @@ class Interp:
 
     def binop(self, fr, op, a, b, rv, dest):
         if isinstance(a, Adt) and not a.fields:
-            a = a.vi
+            a = a.vi - 1 if a.path.endswith("cmp::Ordering") else a.vi
         if isinstance(b, Adt) and not b.fields:
-            b = b.vi
+            b = b.vi - 1 if b.path.endswith("cmp::Ordering") else b.vi
         if op == "Offset":
             if isinstance(a, Ptr):
                 return Ptr(a.heap, a.off + b * a.esz, a.esz, a.helem)
